@@ -184,10 +184,13 @@ Definition lsize (l : list sexpr) : nat := fold_right (fun x n => size x + n)%na
 Definition psize (l : list (bytes * sexpr)) : nat := fold_right (fun kx n => size (snd kx) + n)%nat O l.
 
 (* the property carried by the induction: with enough fuel on both sides the model meets the spec *)
-Definition good (env : list (bytes * value)) (e : sexpr) : Prop :=
+(* the environment is a chain of scopes, innermost first; the specification sees it flattened *)
+Definition flat_env (en : env) : list (bytes * value) := concat en.
+
+Definition good (en : env) (e : sexpr) : Prop :=
   lits_ok e -> forall fs, (size e <= fs)%nat ->
   exists n, forall fm, (n <= fm)%nat ->
-    meets (eval_expr cx0 fm [env] (compile e)) (sem model_call_spec fs env e).
+    meets (eval_expr cx0 fm en (compile e)) (sem model_call_spec fs (flat_env en) e).
 
 Definition meets_list {A} (o : outcome (list A)) (s : lres A) : Prop :=
   match s with
@@ -223,15 +226,15 @@ Definition semp (fs : nat) (env : list (bytes * value)) : list (bytes * sexpr) -
 Lemma size_le_lsize x l : In x l -> (size x <= lsize l)%nat.
 Proof. induction l as [|y l IH]; [intros []|]. intros [<-|H]; unfold lsize in *; cbn [fold_right]; [lia|]. specialize (IH H). lia. Qed.
 
-Lemma exprs_meet env args fs :
-  Forall (good env) args -> all_ok args -> (lsize args <= fs)%nat ->
+Lemma exprs_meet (en : env) args fs :
+  Forall (good en) args -> all_ok args -> (lsize args <= fs)%nat ->
   exists n, forall fm, (n <= fm)%nat ->
-    meets_list (eval_exprs cx0 fm [env] (map compile args)) (sems fs env args).
+    meets_list (eval_exprs cx0 fm en (map compile args)) (sems fs (flat_env en) args).
 Proof.
-  induction args as [|x args IH]; intros Hg Hok Hsz.
+  set (env := flat_env en). induction args as [|x args IH]; intros Hg Hok Hsz.
   - exists 1%nat. intros fm Hfm. destruct fm; [lia|]. reflexivity.
   - inversion Hg as [|? ? Hx Hrest]; subst. destruct Hok as [Hokx Hokr]. cbn [lsize fold_right] in Hsz.
-    destruct (Hx Hokx fs ltac:(lia)) as [n1 H1].
+    destruct (Hx Hokx fs ltac:(lia)) as [n1 H1]. fold env in H1.
     destruct (IH Hrest Hokr ltac:(unfold lsize; lia)) as [n2 H2].
     exists (S (Nat.max n1 n2)). intros fm Hfm. destruct fm as [|fm]; [lia|].
     cbn [map eval_exprs sems].
@@ -247,15 +250,15 @@ Proof.
     + exact I.
 Qed.
 
-Lemma pairs_meet env ps fs :
-  Forall (fun kx => good env (snd kx)) ps -> all_ok_pairs ps -> (psize ps <= fs)%nat ->
+Lemma pairs_meet (en : env) ps fs :
+  Forall (fun kx => good en (snd kx)) ps -> all_ok_pairs ps -> (psize ps <= fs)%nat ->
   exists n, forall fm, (n <= fm)%nat ->
-    meets_list (eval_pairs cx0 fm [env] (map (fun kx => (fst kx, compile (snd kx))) ps)) (semp fs env ps).
+    meets_list (eval_pairs cx0 fm en (map (fun kx => (fst kx, compile (snd kx))) ps)) (semp fs (flat_env en) ps).
 Proof.
-  induction ps as [|[k x] ps IH]; intros Hg Hok Hsz.
+  set (env := flat_env en). induction ps as [|[k x] ps IH]; intros Hg Hok Hsz.
   - exists 1%nat. intros fm Hfm. destruct fm; [lia|]. reflexivity.
   - inversion Hg as [|? ? Hx Hrest]; subst. destruct Hok as [Hokx Hokr]. cbn [psize fold_right snd] in Hsz, Hx, Hokx.
-    destruct (Hx Hokx fs ltac:(lia)) as [n1 H1].
+    destruct (Hx Hokx fs ltac:(lia)) as [n1 H1]. fold env in H1.
     destruct (IH Hrest Hokr ltac:(unfold psize; lia)) as [n2 H2].
     exists (S (Nat.max n1 n2)). intros fm Hfm. destruct fm as [|fm]; [lia|].
     cbn [map eval_pairs semp fst snd].
@@ -301,8 +304,17 @@ Proof.
   cbn [ainsert fold_right]. destruct (bytes_leb (fst x) (fst y)); cbn [fold_right]; [reflexivity|]. rewrite IHm. lia.
 Qed.
 
-Lemma env_get_single env n : env_get [env] n = alookup n env.
-Proof. cbn [env_get]. destruct (alookup n env); reflexivity. Qed.
+Lemma alookup_app {A} n (a b : list (bytes * A)) :
+  alookup n (a ++ b) = match alookup n a with Some v => Some v | None => alookup n b end.
+Proof.
+  induction a as [|[k v] a IH]; cbn [app alookup]; [reflexivity|]. destruct (bytes_eqb n k); [reflexivity|exact IH].
+Qed.
+
+Lemma env_get_flat (en : env) n : env_get en n = alookup n (flat_env en).
+Proof.
+  unfold flat_env. induction en as [|fr en IH]; cbn [env_get concat]; [reflexivity|].
+  rewrite alookup_app, IH. reflexivity.
+Qed.
 
 Lemma compile_line e : expr_line (compile e) = Some 1%nat.
 Proof. destruct e; reflexivity. Qed.
@@ -357,7 +369,7 @@ Proof.
   - exact I.
 Qed.
 
-Theorem all_good env e : good env e.
+Theorem all_good (en : env) e : good en e.
 Proof.
   induction e using sexpr_ind'; intros Hok fs Hsz; (destruct fs as [|f]; [cbn [size] in Hsz; lia|]).
   - (* XInt *)
@@ -373,8 +385,8 @@ Proof.
   - exists 1%nat. intros fm Hfm. destruct fm; [lia|]. reflexivity.
   - exists 1%nat. intros fm Hfm. destruct fm; [lia|]. reflexivity.
   - (* XVar *)
-    exists 1%nat. intros fm Hfm. destruct fm; [lia|]. cbn [compile eval_expr sem]. rewrite env_get_single.
-    destruct (alookup n env); cbn; [reflexivity|do 2 eexists; reflexivity].
+    exists 1%nat. intros fm Hfm. destruct fm; [lia|]. cbn [compile eval_expr sem]. rewrite env_get_flat.
+    destruct (alookup n (flat_env en)); cbn; [reflexivity|do 2 eexists; reflexivity].
   - (* XNeg *)
     cbn [size] in Hsz. destruct (IHe Hok f ltac:(lia)) as [n Hn]. exists (S n). intros fm Hfm.
     destruct fm as [|fm]; [lia|]. cbn [compile eval_expr sem].
@@ -422,9 +434,9 @@ Proof.
   - (* XCall *)
     cbn [size] in Hsz. destruct Hok as [Hokr Hoka]. fold (all_ok args) in Hoka. fold (lsize args) in Hsz.
     destruct (IHe Hokr f ltac:(lia)) as [n1 H1].
-    destruct (exprs_meet env args f H Hoka ltac:(lia)) as [n2 H2].
+    destruct (exprs_meet en args f H Hoka ltac:(lia)) as [n2 H2].
     exists (S (S (Nat.max n1 n2))). intros fm Hfm. destruct fm as [|fm]; [lia|].
-    cbn [compile eval_expr sem]. fold (sems f env).
+    cbn [compile eval_expr sem]. fold (sems f (flat_env en)).
     destruct (raw_literal e fn args) as [lit|] eqn:Hraw.
     + (* "literal".raw() *)
       unfold raw_literal in Hraw. destruct e; try discriminate. destruct args; [|discriminate].
@@ -439,43 +451,43 @@ Proof.
       unfold model_call_spec.
       destruct (negb (has_func_table rv)) eqn:Ht.
       * (* no function table for this kind of value: an error whatever the arguments are *)
-        destruct (sems f env args); cbn; try exact I; do 2 eexists; reflexivity.
+        destruct (sems f (flat_env en) args); cbn; try exact I; do 2 eexists; reflexivity.
       * specialize (H2 fm ltac:(lia)).
-        destruct (sems f env args) as [avs| |]; cbn [meets_list] in H2.
+        destruct (sems f (flat_env en) args) as [avs| |]; cbn [meets_list] in H2.
         -- rewrite H2. cbv beta iota.
            destruct (call_builtin fn rv avs) as [[v|msg|]|]; cbn; try reflexivity; try exact I; do 2 eexists; reflexivity.
         -- destruct H2 as (ln & msg & ->). cbn. do 2 eexists. reflexivity.
         -- exact I.
   - (* XArr *)
     cbn [size] in Hsz. fold (all_ok els) in Hok. fold (lsize els) in Hsz.
-    destruct (exprs_meet env els f H Hok ltac:(lia)) as [n2 H2].
+    destruct (exprs_meet en els f H Hok ltac:(lia)) as [n2 H2].
     exists (S n2). intros fm Hfm. destruct fm as [|fm]; [lia|].
-    cbn [compile eval_expr sem]. fold (sems f env).
+    cbn [compile eval_expr sem]. fold (sems f (flat_env en)).
     specialize (H2 fm ltac:(lia)).
-    destruct (sems f env els) as [vs| |]; cbn [meets_list] in H2.
+    destruct (sems f (flat_env en) els) as [vs| |]; cbn [meets_list] in H2.
     + rewrite H2. reflexivity.
     + destruct H2 as (ln & msg & ->). cbn. do 2 eexists. reflexivity.
     + exact I.
   - (* XObj *)
     cbn [size] in Hsz. fold (all_ok_pairs pairs) in Hok. fold (psize pairs) in Hsz.
-    destruct (pairs_meet env (asort pairs) f (forall_asort _ _ H) (all_ok_pairs_asort _ Hok)
+    destruct (pairs_meet en (asort pairs) f (forall_asort _ _ H) (all_ok_pairs_asort _ Hok)
                          ltac:(rewrite psize_asort; lia)) as [n2 H2].
     exists (S n2). intros fm Hfm. destruct fm as [|fm]; [lia|].
-    cbn [compile eval_expr sem]. fold (semp f env).
+    cbn [compile eval_expr sem]. fold (semp f (flat_env en)).
     rewrite asort_map_values.
     specialize (H2 fm ltac:(lia)).
-    destruct (semp f env (asort pairs)) as [kvs| |]; cbn [meets_list] in H2.
+    destruct (semp f (flat_env en) (asort pairs)) as [kvs| |]; cbn [meets_list] in H2.
     + rewrite H2. reflexivity.
     + destruct H2 as (ln & msg & ->). cbn. do 2 eexists. reflexivity.
     + exact I.
 Qed.
 
 (* ---------- the statement for a rendered expression *)
-Theorem model_evaluates_like_the_specification env e fs :
+Theorem model_evaluates_like_the_specification (en : env) e fs :
   lits_ok e -> (size e <= fs)%nat ->
   exists n, forall fm, (n <= fm)%nat ->
-    meets (eval_expr cx0 fm [env] (compile e)) (sem model_call_spec fs env e).
-Proof. intros Hok Hsz. exact (all_good env e Hok fs Hsz). Qed.
+    meets (eval_expr cx0 fm en (compile e)) (sem model_call_spec fs (flat_env en) e).
+Proof. intros Hok Hsz. exact (all_good en e Hok fs Hsz). Qed.
 
 (* non-vacuity: 8 / 2 * 2 is (8 / 2) * 2 = 8 for the specification, and the model agrees *)
 Example sem_example :
